@@ -3,12 +3,13 @@ import Carquet.Spec.File.Types
 /-
 The table a write history denotes, as the independent reader's `Spec.File.Table`: the schema
 tree carquet's writer stands for (root "schema" + one leaf per column) and, per row group and
-column, the entries `(repetition level 0, definition level, value)`.
+column, the entries `(repetition level, definition level, value)` (repetition level 0 throughout for
+REQUIRED / OPTIONAL columns).
 
 This is the table of the C05 statement `Spec.File.read (file written) = ok (specTableOf cols ops)`
 (Properties/C05/SpecWriter.lean) and of the driver's run-time check of the same statement
 (Driver/Ops/FileSpec.lean, op `wrspec`).  It is defined from the history alone (`tableOf`), for
-flat REQUIRED / OPTIONAL columns.
+flat REQUIRED / OPTIONAL / REPEATED columns.
 -/
 namespace Carquet.Impl.Writer
 open Carquet.Spec
@@ -39,11 +40,30 @@ def specEntries (maxDef : Nat) : List Nat → List Val → List File.Entry
       | [] => ⟨0, d, none⟩ :: specEntries maxDef ds []
     else ⟨0, d, none⟩ :: specEntries maxDef ds vs
 
+/-- entries of a column from its repetition levels, definition levels and dense values: an entry
+carries the next value exactly when its definition level is the maximum (`specEntries` with the
+repetition levels of the history instead of 0) -/
+def specEntriesR (maxDef : Nat) : List Nat → List Nat → List Val → List File.Entry
+  | r :: rs, d :: ds, vs =>
+    if d = maxDef then
+      match vs with
+      | v :: vs' => ⟨r, d, some v⟩ :: specEntriesR maxDef rs ds vs'
+      | [] => ⟨r, d, none⟩ :: specEntriesR maxDef rs ds []
+    else ⟨r, d, none⟩ :: specEntriesR maxDef rs ds vs
+  | _, _, _ => []
+
 /-- the definition levels of a column's content (a REQUIRED column has level 0 on every row) -/
 def specDefs (c : Col) (d : ColData) : List Nat :=
   if c.maxDef = 0 then List.replicate d.rows 0 else d.defs
 
-def specChunkOf (c : Col) (d : ColData) : File.Chunk := specEntries c.maxDef (specDefs c d) d.vals
+/-- the repetition levels of a column's content (a non-repeated column has level 0 on every row) -/
+def specReps (c : Col) (d : ColData) : List Nat :=
+  if c.maxRep = 0 then List.replicate d.rows 0 else d.reps
+
+/-- one column chunk of the table: REQUIRED / OPTIONAL columns have repetition level 0 throughout
+(`specEntries`); a REPEATED column carries the repetition levels the history handed to
+`write_batch` (0 for every entry of a batch written with a NULL rep_levels pointer) -/
+def specChunkOf (c : Col) (d : ColData) : File.Chunk := specEntriesR c.maxDef (specReps c d) (specDefs c d) d.vals
 
 def specRowGroupsOf (cols : List Col) (ops : List Op) : List File.RowGroup :=
   (tableOf cols ops).map (fun g => ⟨List.zipWith specChunkOf cols g⟩)
